@@ -21,6 +21,17 @@ def _resize_ss2():
             out.append(d)
     return out
 
+def _get_backup_sb():
+    """e2fsck's automatic search for a backup superblock (source harness/C13/get_backup_sb.c): real e2fsck/util.c get_backup_sb +
+    ext2fs_list_backups against a symbolic true geometry: the first intact backup is found for every block size"""
+    for h in _m13.HARNESSES:
+        if h["name"] == "get_backup_sb":
+            d = dict(h)
+            d["src"] = "../C13/get_backup_sb.c"
+            d["configs"] = [dict((k, v) for k, v in c.items() if k != "_tier") for c in h["configs"]]
+            return d
+    raise RuntimeError("C13 get_backup_sb harness missing")
+
 def _main_backup():
     """e2fsck/unix.c main() through its final close (source harness/C13/main_e2fsck_full.c): a repairing run that completed on
     a valid filesystem whose first backup disagrees with the primary ends with MASTER_SB_ONLY cleared (backups refreshed)"""
@@ -63,6 +74,7 @@ HARNESSES = [
          unwind=8, unwindset=["test_root.0:6", "memcmp.0:17", "main.0:7", "main.1:17", "main.2:17"], backends=["default", "kissat"],
          bound="1..6 groups; primary superblock, candidate backup superblock (all 1024 bytes each), fs flags, e2fsck flags/options symbolic"),
     _main_backup(),
+    _get_backup_sb(),
 ] + _resize_ss2() + [
     dict(name="bg_has_super", src="bg_has_super.c",
          funcs=["ext2fs_bg_has_super", "test_root"],
